@@ -13,6 +13,7 @@ import (
 
 	"github.com/bnb-chain/tss-lib/v2/common"
 	"github.com/bnb-chain/tss-lib/v2/crypto"
+	"github.com/bnb-chain/tss-lib/v2/tss"
 )
 
 type (
@@ -54,6 +55,10 @@ func NewZKProof(Session []byte, x *big.Int, X *crypto.ECPoint, rand io.Reader) (
 // NewZKProof verifies a new Schnorr ZK proof of knowledge of the discrete logarithm (GG18Spec Fig. 16)
 func (pf *ZKProof) Verify(Session []byte, X *crypto.ECPoint) bool {
 	if pf == nil || !pf.ValidateBasic() {
+		return false
+	}
+	// point arithmetic panics on coordinates that are not on the curve
+	if X == nil || !X.ValidateBasic() || !pf.Alpha.ValidateBasic() || !tss.SameCurve(X.Curve(), pf.Alpha.Curve()) {
 		return false
 	}
 	ec := X.Curve()
@@ -113,6 +118,11 @@ func NewZKVProof(Session []byte, V, R *crypto.ECPoint, s, l *big.Int, rand io.Re
 
 func (pf *ZKVProof) Verify(Session []byte, V, R *crypto.ECPoint) bool {
 	if pf == nil || !pf.ValidateBasic() {
+		return false
+	}
+	// point arithmetic panics on coordinates that are not on the curve
+	if V == nil || R == nil || !V.ValidateBasic() || !R.ValidateBasic() ||
+		!tss.SameCurve(V.Curve(), R.Curve()) || !tss.SameCurve(V.Curve(), pf.Alpha.Curve()) {
 		return false
 	}
 	ec := V.Curve()
